@@ -123,6 +123,9 @@ func C10(rep *ev.Reporter, tier string) {
 			return fmt.Sprintf(`Retract("%s")`, others[len(others)-1])
 		case "Ru":
 			return `Retract("Unknown")`
+		case "Rc":
+			// the name of ANOTHER rule in another letter case: names are case-sensitive, so this is an unknown name
+			return fmt.Sprintf(`Retract("%s")`, strings.ToUpper(others[0]))
 		case "Rf":
 			return `Retract("F")` // no rule has this name - it is the key of the fact in the data context
 		case "C":
@@ -146,7 +149,7 @@ func C10(rep *ev.Reporter, tier string) {
 		if len(cur) == maxLen {
 			return
 		}
-		for _, c := range append(append([]string{}, codes[:5]...), "H", "Rf") {
+		for _, c := range append(append([]string{}, codes[:5]...), "H", "Rf", "Rc") {
 			rec(append(cur, c))
 		}
 	}
